@@ -68,7 +68,7 @@ fn strip_oracle(s: &mut Sim) {
 fn acct_plans(prop: &'static str, thorough: bool) -> Vec<Plan> {
     let mut out = Vec::new();
     for k in cfgs(thorough) {
-        if prop == "C15" && !k.oracle && k.name != "K1" {
+        if prop == "C15" && ((!k.oracle && k.name != "K1") || (!thorough && k.name == "K2")) {
             continue;
         }
         let seeds = named(
